@@ -65,6 +65,8 @@ fn fire_one(rng: &mut Rng) {
 /// Run `nthreads` firing threads (each `fires` fires) concurrently with the wake-only executor.
 pub fn run(ex: &mut Exec, nthreads: usize, fires: usize, seed: u64) {
     with(|w| w.ev(format_args!("{{\"e\":\"tstart\",\"threads\":{},\"fires\":{}}}", nthreads, fires)));
+    crate::world::DAWDLE.store(true, Ordering::SeqCst);
+    let mut spurious_left = 1 + (seed % 4) as u32;
     let done = AtomicBool::new(false);
     let live = AtomicU64::new(nthreads as u64);
     let t0 = Instant::now();
@@ -129,11 +131,21 @@ pub fn run(ex: &mut Exec, nthreads: usize, fires: usize, seed: u64) {
                 idle_rounds = 0;
                 continue;
             }
+            // a few spurious polls while the other threads are firing
+            if spurious_left > 0 && live.load(Ordering::SeqCst) != 0 && idle_rounds % 3 == 2 {
+                spurious_left -= 1;
+                IN_POLL_SINCE.store(t0.elapsed().as_millis() as u64 + 1, Ordering::SeqCst);
+                ex.poll(false);
+                IN_POLL_SINCE.store(0, Ordering::SeqCst);
+                continue;
+            }
             if live.load(Ordering::SeqCst) == 0 {
                 idle_rounds += 1;
                 if idle_rounds > 2 {
                     break;
                 }
+            } else {
+                idle_rounds += 1;
             }
             park(2);
         }
@@ -143,5 +155,6 @@ pub fn run(ex: &mut Exec, nthreads: usize, fires: usize, seed: u64) {
         }
         done.store(true, Ordering::SeqCst);
     });
+    crate::world::DAWDLE.store(false, Ordering::SeqCst);
     with(|w| w.ev(format_args!("{{\"e\":\"tjoin\"}}")));
 }
